@@ -569,6 +569,9 @@ def s5(tier):
         ([A, B, TA], [['B'], ['TA']]),
         ([A, B, C, TA], [['C'], ['TA']]),
         ([A, B, C, TA], [['B', 'TA'], ['C']]),
+        # a Transition factor that is in NO crossing: "the crossing with the latest starting trial determines the unified preamble"
+        ([A, B, TA], [['B']]),
+        ([A, B, C, TA], [['B'], ['C']]),
     ]
     cons_menu = [[], [{'c': 'AtMostKInARow', 'k': 1, 'factor': 'B', 'level': 'b0'}],
                  [{'c': 'Pin', 'index': 0, 'factor': 'A', 'level': 'a0'}]]
